@@ -1,13 +1,14 @@
 #!/usr/bin/env python3
 """tools/seed_suite.py <seeded dir name>...  : runs the pinned baseline (modules touched by the patch) with the patch applied,
-serially (core/writer tests bind :50051), and records the result in /verif/seeded/<name>/meta.json."""
-import json, subprocess, sys
+serially (core/writer and server tests bind :50051), and records the result in /verif/seeded/<name>/suite.json."""
+import json, subprocess, sys, os
 for name in sys.argv[1:]:
     d = "/verif/seeded/" + name
+    if os.path.exists(d + "/suite.json") and json.load(open(d + "/suite.json")).get("existing_suite_passes") is True:
+        print(name, "already confirmed"); continue
     r = json.loads(subprocess.run(["python3", "/verif/tools/seed_confirm.py", d], capture_output=True, text=True).stdout)
-    m = json.load(open(d + "/meta.json"))
-    m.setdefault("confirmed", {})["existing_suite_passes"] = bool(r.get("suite_ok")) if "suite_ok" in r else "error: " + str(r.get("error"))[:200]
-    if r.get("suite_missing"):
-        m["confirmed"]["suite_missing"] = r["suite_missing"][:10]
-    json.dump(m, open(d + "/meta.json", "w"), indent=1)
-    print(name, m["confirmed"])
+    out = {"existing_suite_passes": bool(r.get("suite_ok")) if "suite_ok" in r else "error: " + str(r.get("error"))[:300],
+           "modules": r.get("mods"), "missing_from_baseline": (r.get("suite_missing") or [])[:20],
+           "how": "go test -json -vet=off -count=1 ./... in the touched modules of a scratch worktree with the patch; every test of BASELINE.json stable_pass of those modules must pass"}
+    json.dump(out, open(d + "/suite.json", "w"), indent=1)
+    print(name, out["existing_suite_passes"], out["missing_from_baseline"][:3], flush=True)
